@@ -13,6 +13,15 @@ def select(d: model.Diffs, props: tuple, extra=None) -> list:
     return out
 
 
+def all_present(case: dict, rng=None) -> list:
+    """a selection naming every track of the case (shuffled) plus one absent pair: the parse must equal the unrestricted one"""
+    pairs = [k.split("/") for k in case["truth"].get("tracks", {})]
+    absent = next(([i, d] for i, d in model.ALL_PAIRS if f"{i}/{d}" not in case["truth"].get("tracks", {})), None)
+    if rng is not None:
+        rng.shuffle(pairs)
+    return pairs + ([absent] if absent else [])
+
+
 def judge(rec, props: tuple, case: dict, *, want=None, extra=None, key=None, slim: bool = True):
     """Returns (outcome, observation|None, Diffs|None). Records evaluations, classes, violations."""
     out = harness.parse(case["text"], harness.pairs(want) if want is not None else None)
